@@ -18,7 +18,7 @@ From Coq Require Import NArith List Bool.
 Import ListNotations.
 From HV Require Import lib.Harness model.Validity model.Builder spec.BuilderS proofs.BuilderP proofs.BuilderExtP
   spec.BuilderWFS proofs.BuilderFrameP proofs.BuilderRulesP proofs.BuilderTypeP
-  proofs.BuilderAcyclicP proofs.BuilderNonLocalP proofs.BuilderInputsP.
+  proofs.BuilderAcyclicP proofs.BuilderNonLocalP proofs.BuilderInputsP proofs.BuilderLinearP.
 
 (* Proved for ALL programs of the modelled language, with no well-formedness premise: whenever the
    builder calls do not raise, the serialised document satisfies
@@ -77,6 +77,16 @@ Theorem C01_builder_inputs_once : forall tys p g,
   wt_prog tys p = true -> run tys p = Ok g -> r_inputs_once g = true.
 Proof. exact run_inputs_once. Qed.
 Print Assumptions C01_builder_inputs_once.
+
+(* Second pass.  r_linear_once (rule 9): every output port of non-copyable type of every non-root node has exactly
+   one outgoing link, for every well-typed program whose non-copyable wires are consumed exactly once in the region
+   that binds them (spec/BuilderWFS.v: lin_prog, a boolean computed from the program text: wire ids never
+   re-bound, every non-copyable output bound to a wire, every non-copyable wire used exactly once as an argument of
+   add_op / add_nested or by set_outputs of its own region) and whose builder calls do not raise. *)
+Theorem C01_builder_linear_once : forall tys p g,
+  wt_prog tys p = true -> lin_prog tys p = true -> run tys p = Ok g -> r_linear_once tys g = true.
+Proof. exact run_linear_once. Qed.
+Print Assumptions C01_builder_linear_once.
 
 (* Second pass.  r_acyclic (rule 10, the boolean the validator computes: Kahn's algorithm on fuel over the
    value, static and order edges between the children of each dataflow container) for every program whose
